@@ -99,6 +99,16 @@ pub use msg::message::{Message, MessageBuilder};
 mod message_frame;
 pub use message_frame::MessageFrame;
 
+/// Verification hooks: re-exports of crate-private bit-packing and data-field items.
+/// Compiled only with `--cfg rtcm_rs_verif`; has no effect on normal builds.
+#[cfg(rtcm_rs_verif)]
+pub mod verif_hooks {
+    pub use crate::df::assembler::Assembler;
+    pub use crate::df::bit_value;
+    pub use crate::df::dfs;
+    pub use crate::df::parser::Parser;
+}
+
 pub mod prelude {
     pub use crate::rtcm_error::RtcmError;
     #[cfg(feature = "test_gen")]
